@@ -1,24 +1,39 @@
-"""C06 - Base58 / Base58Check / mnemonic number codecs round-trip (codec half of the HD-key property).
+"""C06 - HD keys: Base58 / Base58Check / mnemonic codecs round-trip; BIP32 derivation structure and extended-key layout.
 
 Interpreted from /repo: Base58.{encode,decode,encode_check,decode_check,char_value}, crypto.util.{bytes_to_int,int_to_bytes},
-Mnemonic.{mnemonic_encode,mnemonic_decode}.  The checksum hash is an ideal function."""
+Mnemonic.{mnemonic_encode,mnemonic_decode}; bip32.{_KeyBase, PrivateKey.from_seed/child/public_key/extended_key/...,
+PublicKey.child/extended_key/identifier/..., _from_extended_key, from_extended_key_string} (harness/bip32_c06.py).  The
+checksum hash, HMAC-SHA512, hash160 and the elliptic curve are ideal."""
 from lbry.crypto.base58 import Base58, Base58Error
 from lbry.wallet.mnemonic import Mnemonic
+
+from harness import bip32_c06
+from harness.bip32_c06 import derive, bad_index, parse_extended      # noqa: F401  (job functions)
 
 LEVEL_TEXT = ('Bounded model checking of the real codecs: every payload of up to N symbolic bytes is Base58-encoded and decoded '
               'back (leading zero bytes <-> leading "1"s, every output character inside the alphabet), every string of up to M '
               'symbolic characters is decoded (rejection outside the alphabet, re-encoding gives the canonical string), '
               'Base58Check accepts a string iff its last four bytes are the checksum of the rest (ideal hash), and every '
-              'number below 2048^W is mnemonic-encoded and decoded back (word table as injective table atoms).')
+              'number below 2048^W is mnemonic-encoded and decoded back (word table as injective table atoms).  BIP32 structure '
+              'on an ideal curve (P(k) ideal and injective, P(k).add(t) = P(k+t)) with ideal HMAC-SHA512/hash160: from_seed and '
+              'chains of child derivations with every 32-bit index (hardened or normal) give the private key, chain code, number, '
+              'depth, public key, fingerprints and 78-byte extended keys an independent BIP32 reference gives; public-only derivation '
+              'of a normal child equals the public key of the private child and is refused for hardened indices; extended keys '
+              'parse back; _from_extended_key on every 77..79-byte string accepts exactly well-formed keys and reads every field '
+              'from the right bytes.')
 LEVEL_NOTE = ('Trusted: z3, the interpreter and its hex / divmod / constant-table models (paths replayed natively with the real '
-              'hash and word list).  Outside - not decidable in this family here: that BIP32 derivation (HMAC-SHA512, secp256k1 '
-              'point arithmetic) matches the BIP32 test vectors; the structural half of the property (message layouts, '
-              'fingerprints, address gap) is not built yet.')
+              'hash and word list; the BIP32 jobs replay with real HMAC/hash160 and a stand-in curve).  Outside - not decidable in '
+              'this family here: that coincurve/libsecp256k1 and HMAC-SHA512 compute what BIP32 prescribes (test vectors), '
+              'address generation order and gap handling (database-driven), mnemonic_to_seed.')
 ASSUMPTIONS = ['double_sha256 = ideal function (checksum equality is decided on its symbolic output bytes)',
                'payloads are not all-zero (int_to_bytes(0) yields one zero byte; no versioned key or address is all-zero)',
-               'the word table has 2048 distinct whitespace-free entries (checked concretely on every run)']
-OUTSIDE = ['BIP32 child derivation, key serialisation and addresses (HMAC-SHA512 / secp256k1 inside C libraries)',
-           'payloads longer than the bound', 'mnemonic_to_seed (PBKDF2)']
+               'the word table has 2048 distinct whitespace-free entries (checked concretely on every run)',
+               'BIP32 jobs: coincurve is replaced by an ideal curve that accepts every non-zero 32-byte secret; group addition is an '
+               'ideal function (fresh non-zero result per new argument pair, shared by PrivateKey.add and PublicKey.add); HMAC '
+               'outputs are fresh 256-bit values; events of probability 2^-127 (an HMAC half that is zero or collides) are assumed away; '
+               'Base58Check is an opaque inverse pair in these jobs']
+OUTSIDE = ['HMAC-SHA512 / secp256k1 values themselves (BIP32 test vectors)', 'address generation order and gap (database)',
+           'payloads longer than the bound', 'mnemonic_to_seed (PBKDF2)', 'derivation paths deeper than the bound']
 
 ALPHABET = '123456789ABCDEFGHJKLMNPQRSTUVWXYZabcdefghijkmnopqrstuvwxyz'
 
@@ -127,6 +142,8 @@ def mnemonic(vm, words):
 
 
 def sym_setup(vm, job):
+    if job.get('family') == 'bip32':
+        return bip32_c06.sym_setup(vm, job)
     from symvm.ideal import IdealFn
     from lbry.crypto import hash as h
     import lbry.crypto.base58 as b58
@@ -159,6 +176,8 @@ class _Native:
 
 
 def native_setup(nvm, job):
+    if job.get('family') == 'bip32':
+        return bip32_c06.Native(nvm)
     return _Native(nvm) if job.get('family') == 'check' else None
 
 
@@ -181,8 +200,90 @@ def jobs(tier):
     for w in ((1, 2, 4, 12) if tier == 'quick' else (1, 2, 4, 12, 24)):
         out.append(dict(name=f'mnemonic-{w}words', family='mnemonic', fn='mnemonic', args=(w,), loop_bound=200, max_depth=50, cost=50 * w,
                         bounds=dict(i=f'[1, 2048^{w})'), must_reach=('ok',)))
+    out.extend(bip32_c06.jobs(tier))
     return out
 
 
 def finding_key(job, verdict, inputs, named):
     return f'{job.get("family")}|{verdict}'
+
+
+def _encode_skips_leading_zeros(node):
+    """Canary: Base58.encode stops counting leading zero bytes one too late (emits a '1' for the first non-zero byte)."""
+    import ast
+    for n in ast.walk(node):
+        if isinstance(n, ast.For) and isinstance(n.target, ast.Name) and n.target.id == 'byte':
+            n.body = [n.body[1], n.body[0]]
+            return True
+    return False
+
+
+def _checksum_three_bytes(node):
+    """Canary: decode_check compares only three checksum bytes."""
+    import ast
+    hit = False
+    for n in ast.walk(node):
+        if isinstance(n, ast.Constant) and n.value == -4:
+            n.value = -3
+            hit = True
+        if isinstance(n, ast.UnaryOp) and isinstance(n.op, ast.USub) and isinstance(n.operand, ast.Constant) and n.operand.value == 4:
+            n.operand.value = 3
+            hit = True
+    return hit
+
+
+def _mnemonic_pop_front(node):
+    """Canary: mnemonic_decode consumes the words in the wrong order."""
+    import ast
+    for n in ast.walk(node):
+        if isinstance(n, ast.Call) and isinstance(n.func, ast.Attribute) and n.func.attr == 'pop' and not n.args:
+            n.args = [ast.Constant(0)]
+            return True
+    return False
+
+
+def _hardened_off_by_one(node):
+    import ast
+    for n in ast.walk(node):
+        if isinstance(n, ast.Compare) and isinstance(n.ops[0], ast.GtE) and isinstance(n.comparators[0], ast.Attribute) \
+                and n.comparators[0].attr == 'HARDENED':
+            n.ops[0] = ast.Gt()
+            return True
+    return False
+
+
+def _child_number_little_endian(node):
+    import ast
+    for n in ast.walk(node):
+        if isinstance(n, ast.Constant) and n.value == 'big':
+            n.value = 'little'
+            return True
+    return False
+
+
+def _chain_code_offset(node):
+    import ast
+    for n in ast.walk(node):
+        if isinstance(n, ast.Slice) and isinstance(n.lower, ast.Constant) and n.lower.value == 9:
+            n.lower = ast.Constant(8)
+            n.upper = ast.Constant(12)
+            return True
+    return False
+
+
+CANARIES = [
+    dict(name='encode-leading-zero-count', target='lbry.crypto.base58:Base58.encode', mutate=_encode_skips_leading_zeros,
+         job=dict(family='base58', fn='encode_decode', args=(2,), loop_bound=200, max_depth=50, query_timeout_ms=30000,
+                  incremental_timeout_ms=300)),
+    dict(name='checksum-three-bytes', target='lbry.crypto.base58:Base58.decode_check', mutate=_checksum_three_bytes,
+         job=dict(family='check', fn='check_tamper', args=(2,), loop_bound=200, max_depth=50, query_timeout_ms=30000,
+                  incremental_timeout_ms=300)),
+    dict(name='mnemonic-word-order', target='lbry.wallet.mnemonic:Mnemonic.mnemonic_decode', mutate=_mnemonic_pop_front,
+         job=dict(family='mnemonic', fn='mnemonic', args=(2,), loop_bound=200, max_depth=50)),
+    dict(name='bip32-hardened-threshold', target='lbry.wallet.bip32:PrivateKey.child', mutate=_hardened_off_by_one,
+         job=dict(family='bip32', fn='derive', args=(16, 1), loop_bound=200, max_depth=60)),
+    dict(name='bip32-child-number-endianness', target='lbry.wallet.bip32:_KeyBase._extended_key', mutate=_child_number_little_endian,
+         job=dict(family='bip32', fn='derive', args=(16, 1), loop_bound=200, max_depth=60)),
+    dict(name='bip32-parser-offsets', target='lbry.wallet.bip32:_from_extended_key', mutate=_chain_code_offset,
+         job=dict(family='bip32', fn='parse_extended', args=(), loop_bound=200, max_depth=60)),
+]
